@@ -128,8 +128,12 @@ BS = %(bs)d
 USE_T = %(use_t)r
 
 
+CALLS = [0]
+
+
 class Tag(DataLoaderCallback):
     def __call__(self, dl, X, y):
+        CALLS[0] += 1
         return ([v + 1000 for v in X], list(y))
 
 
@@ -139,6 +143,7 @@ def %(name)s(X: List[int]) -> bool:
     post: __return__ == True
     """
     _PATHS[0] += 1
+    CALLS[0] = 0
     y = [x * 2 + 1 for x in X]
     dl = DataLoader(X, y, BS, Tag() if USE_T else None)
     n = len(X)
@@ -153,6 +158,18 @@ def %(name)s(X: List[int]) -> bool:
             if USE_T:
                 xs = [v + 1000 for v in xs]
             if list(xb) != xs or list(yb) != y[i * BS:(i + 1) * BS] or len(xb) != BS:
+                return False
+    if USE_T and CALLS[0] != 2 * (n // BS):   # every batch of every pass goes through the transform
+        return False
+    if n >= 1:                                 # the loader serves the data it was given, as it is now: a sample changed in place
+        X[0] = X[0] + 7                        # between two passes shows up in the next pass (nothing is remembered from the last)
+        y[0] = y[0] + 7
+        got = [b for b in dl]
+        for i, (xb, yb) in enumerate(got):
+            xs = X[i * BS:(i + 1) * BS]
+            if USE_T:
+                xs = [v + 1000 for v in xs]
+            if list(xb) != xs or list(yb) != y[i * BS:(i + 1) * BS]:
                 return False
     it = iter(dl)                              # a fresh iteration restarts even after a partial one
     if n // BS >= 1:
